@@ -21,7 +21,7 @@ RULE = (
     "{1..9} u {k*c, k*c+-1} x chunksize {1,2,3,None} x seed {0,1,12345} x attributes {none, weights, redshifts, both; "
     "value i encodes source row i} x workers {1, 2 (virtual pool, all delivery orders)}; history: every sequence of "
     "length <= 3 over {direct call, probe, full pass, abandoned partial pass} before the observed pass, and repeated "
-    "Catalog.from_random with one generator; the same histories with a probe as the observed operation; explicit reseeding over {0,1,12345}^2 observed directly, through a reader created before, and through its probe; attribute columns given as pandas Series with a permuted index (both, or one next to a plain array); attribute tables with NaN / inf in different rows of weights and redshifts (pairs stay rows of the input); attribute tables of 1,2,3,7 rows: every row reachable (index range at the rng seam and 300*m real draws); probe: get_probe(s) for s in 1..n x chunksize {1,2,3,None} returns exactly s points, reproducibly; uniformity: the generator's rng replaced by a stub returning an exact "
+    "Catalog.from_random with one generator; the same histories with a probe as the observed operation; explicit reseeding over {0,1,12345}^2 observed directly, through a reader created before, and through its probe; attribute columns given as pandas Series with a permuted index (both, or one next to a plain array); attribute tables with NaN / inf in different rows of weights and redshifts (pairs stay rows of the input); attribute tables of 1,2,3,7 rows: every row reachable (index range at the rng seam and 300*m real draws); probe: get_probe(s) for s in 1..n x chunksize {1,2,3,None} returns exactly s points, reproducibly; dataframe: generate_dataframe(n, degrees {True, False, default}) on 3 windows x attributes {none, wz} equals the direct draw of a generator with the same seed in that unit and advances the stream alike; uniformity: the generator's rng replaced by a stub returning an exact "
     "regular grid, the points must satisfy ra = lo+u(hi-lo), sin(dec) = sin(lo)+v(sin(hi)-sin(lo)). Oracle: exact "
     "count, every point inside the window, weight and redshift name the same source row, records identical to a "
     "fresh generator with that seed. Non-trivial: size not a multiple of the chunk size, or a non-empty history."
